@@ -21,7 +21,8 @@ def main():
     pid = sys.argv[1]
     tier = sys.argv[sys.argv.index("--tier") + 1] if "--tier" in sys.argv else "quick"
     recheck = "--recheck" in sys.argv
-    dest = os.path.join(VERIF, "seeded", pid)
+    name = sys.argv[sys.argv.index("--name") + 1] if "--name" in sys.argv else pid
+    dest = os.path.join(VERIF, "seeded", name)
     meta_p = os.path.join(dest, "meta.json")
     if not recheck:
         wt = sys.argv[2] if len(sys.argv) > 2 and not sys.argv[2].startswith("--") else f"/tmp/wt-{pid}"
@@ -59,7 +60,7 @@ def main():
         print("patch does not apply to /repo:", out)
         return 2
     try:
-        outdir = f"/dev/shm/seeded-out-{pid}"
+        outdir = f"/dev/shm/seeded-out-{name}"
         shutil.rmtree(outdir, ignore_errors=True)
         t0 = time.time()
         rc, out = sh(f"./check {pid} {tier}", cwd=VERIF, env=dict(os.environ, VERIF_OUT=outdir))
@@ -69,10 +70,10 @@ def main():
     viol = [l for l in out.splitlines() if l.startswith("VIOLATION")]
     obs = [l.strip()[:400] for l in out.splitlines() if l.strip().startswith("observed:")]
     meta.setdefault("checks", {})[tier] = {"exit": rc, "detected": rc == 1 and bool(viol), "wall_s": round(wall, 1), "observed": obs[:3],
-                                           "cmd": f"git -C /repo apply seeded/{pid}/patch.diff; ./check {pid} {tier}; git -C /repo checkout -- ."}
+                                           "cmd": f"git -C /repo apply seeded/{name}/patch.diff; ./check {pid} {tier}; git -C /repo checkout -- ."}
     json.dump(meta, open(meta_p, "w"), indent=1)
     shutil.rmtree(outdir, ignore_errors=True)
-    print(f"{pid} {tier}: check exit {rc} -> {'DETECTED' if rc == 1 and viol else 'MISSED' if rc == 0 else 'HARNESS'} in {wall:.0f}s")
+    print(f"{name} {tier}: check exit {rc} -> {'DETECTED' if rc == 1 and viol else 'MISSED' if rc == 0 else 'HARNESS'} in {wall:.0f}s")
     for o in obs[:2]:
         print("   ", o[:300])
     if rc not in (0, 1):
